@@ -110,15 +110,16 @@ def line_obs(tier):
         ln = n + (len(prefix) if prefix else 0)
         defs = ["C39_N=%d" % n, "C39_AF=%d" % af] + list(extra) + (['C39_PREFIX="%s"' % prefix] if prefix else [])
         # loop bounds: `search` domains <= (ln - 6) / 2 (each needs a blank and a byte), `options` tokens <= (ln - 7) / 2
-        return ob(name, "harness_resolv", desc, defs, unwind=max(ln + 3, 12), instrument=rc, timeout=900, mem_gb=5,
+        return ob(name, "harness_resolv", desc, defs, unwind=max(ln + 3, 12), instrument=rc, timeout=900, mem_gb=(5 if (prefix in ("nameserver", "options", "search")) else 3),
                   unwindset=["resolv_conf_parse_line.2:%d" % (max(ln - 6, 0) // 2 + 2), "resolv_conf_parse_line.3:%d" % (max(ln - 7, 0) // 2 + 2)], **kw)
     common = ("on a base with 0/1 nameserver and 0/1 search domain, any flags: nameserver ring, search list (order, leading dots), ndots, (option,value) pairs handed "
               "to the option routine == reference; other lines change nothing; no leak (excluding KF-C39-ndots-reset)")
     S = 7 if tier == "quick" else 8
-    o.append(rl("resolv_line_any_N%d" % S, S, 1, ["KF_EXCLUDE_NDOTS_RESET", "C39_W_DOMAIN"],
+    o.append(rl("resolv_line_any_N%d" % S, S, 1, ["KF_EXCLUDE_NDOTS_RESET"] + (["C39_W_DOMAIN"] if S >= 8 else []),
                 "resolv_conf_parse_line(any line <= %d bytes in an exact object) %s" % (S, common)))
-    T = 4 if tier == "quick" else 6
+    T = 3 if tier == "quick" else 5
     for af, what in ((1, "yields an IPv4 address"), (0, "rejects the address"), (2, "yields an IPv6 address")):
+        if tier == "quick" and af == 2: continue
         o.append(rl("resolv_line_nameserver_T%d_af%d" % (T, af), T, af, ["KF_EXCLUDE_NDOTS_RESET", "C39_W_NS"],
                     "resolv_conf_parse_line(\"nameserver\"[short of its last character] + <= %d arbitrary bytes; the address parser %s) %s" % (T, what, common), prefix="nameserver"))
     for kw_, wit, t in (("search", "C39_W_SEARCH", T + 2), ("domain", "C39_W_DOMAIN", T), ("options", "C39_W_OPTIONS", T + 1)):
@@ -131,7 +132,7 @@ def line_obs(tier):
         o.append(ob("hosts_line_N%d_af%d" % (H, af), "harness_hosts",
                     "evdns_base_parse_hosts_line(any line <= %d bytes in an exact object; the address parser %s): result and recorded (name, address) "
                     "entries == reference (comment stripped, first field = address without port, remaining fields = names in order); no leak" % (H, what),
-                    ["C39_N=%d" % H, "C39_AF=%d" % af], unwind=max(H + 3, 12), unwindset=["evdns_base_parse_hosts_line.4:%d" % ((H - 1) // 2 + 2)], timeout=900, mem_gb=8))
+                    ["C39_N=%d" % H, "C39_AF=%d" % af], unwind=max(H + 3, 12), unwindset=["evdns_base_parse_hosts_line.4:%d" % ((H - 1) // 2 + 2)], timeout=900, mem_gb=3))
     fr = [["--replace-calls", "resolv_conf_parse_line:c39_line_rec"], ["--replace-calls", "evdns_base_parse_hosts_line:c39_hline_rec"]]
     for hosts, what in ((0, "evdns_base_resolv_conf_parse_impl"), (1, "evdns_base_load_hosts_impl")):
         o.append(ob("file_split_%s_N%d" % ("hosts" if hosts else "resolv", F), "harness_file",
